@@ -356,6 +356,11 @@ impl LocalPeerService {
             }
             Self::cleanup(&lock_service, rooms).await;
             drop(acquere);
+            // rooms granted by the lock service that the loop above has not read: refuse further grants and release them
+            lock_receiver.close();
+            while let Ok(room) = lock_receiver.try_recv() {
+                lock_service.unlock(room).await;
+            }
             let key = remote_verifying_key.lock().await;
             peer_service
                 .disconnect(key.clone(), circuit_id, connection_info.conn_id)
